@@ -103,11 +103,11 @@ def run(ctx):
             ctx.ob('R-SIBLING/spec', ok, 'spec|forward|' + name, loc_str(f), '%s: %s' % (f['qn'], why), cfg=ca)
         # assembly side
         arch = bm.configs()[ca]['arch']
-        if arch not in ('x86_64', 'aarch64'):
+        if arch not in ('x86_64', 'aarch64', 'armv6_m'):
             continue
         tbl = asmcheck.build_tables(ca, os.path.join(ctx.outdir, 'asm'))
         leaves = asmcheck.extern_leaves(pa)
-        retreg = 'rax' if arch == 'x86_64' else 'x0'
+        retreg = {'x86_64': 'rax', 'aarch64': 'x0', 'armv6_m': 'r0'}[arch]
         facts = {}
         names = set(n for n in leaves if n in tbl)
         ctx.floor('assembly routines bound to C++ members[%s]' % ca, len(names), 8)
